@@ -35,7 +35,7 @@ def cases(tier, seed):
         out.append({"kind": "ids", "cls": "unique_id", "shape": [I, J, K]})
     for rep in range(10 if tier == "quick" else 600):
         out.append({"kind": "gauss", "cls": "gauss_tensor", "idx": rep, "seed": seed})
-    for rep in range(12 if tier == "quick" else 600):
+    for rep in range(48 if tier == "quick" else 600):
         out.append({"kind": "image", "cls": "image", "idx": rep, "seed": seed})
     for rep in range(8 if tier == "quick" else 400):
         out.append({"kind": "metrics", "cls": "metrics", "idx": rep, "seed": seed})
@@ -138,9 +138,30 @@ def _image(spec, ctx, R):
            "tiny": rng.random((H, W, 3)) * 1e-12}[kind]
     rp = float(rng.choice([0.0, 1.0, -2.5, 1e6, 1e-9]))
     ctx.distinct(kind, rgb, rp)
-    q = Q.rgb_to_quat(rgb.copy(), real_part=rp)
-    ok = q.shape == (H, W, 4) and np.all(q[..., 0] == rp) and np.array_equal(q[..., 1:], rgb.astype(np.float64))
-    ctx.check("rgb_roundtrip", ok, site="rgb_to_quat", detail={"kind": kind, "shape": [H, W]})
+    # the real part in the forms a caller may pass it: omitted (default 0), positional, Python int, numpy integer / float32 scalars
+    form = ["float", "omitted", "int", "np.int64", "np.float32", "positional", "np.int32(0)"][(spec["idx"] // 6) % 7]
+    ctx.hit("callform:real_part_" + form)
+    if form == "omitted":
+        rp = 0.0
+        q = Q.rgb_to_quat(rgb.copy())
+    elif form == "int":
+        rp = float(int(rng.integers(-3, 4)))
+        q = Q.rgb_to_quat(rgb.copy(), real_part=int(rp))
+    elif form == "np.int64":
+        rp = float(int(rng.integers(-3, 4)))
+        q = Q.rgb_to_quat(rgb.copy(), real_part=np.int64(rp))
+    elif form == "np.int32(0)":
+        rp = 0.0
+        q = Q.rgb_to_quat(rgb.copy(), real_part=np.int32(0))
+    elif form == "np.float32":
+        rp = 0.25
+        q = Q.rgb_to_quat(rgb.copy(), real_part=np.float32(0.25))
+    elif form == "positional":
+        q = Q.rgb_to_quat(rgb.copy(), rp)
+    else:
+        q = Q.rgb_to_quat(rgb.copy(), real_part=rp)
+    ok = q.shape == (H, W, 4) and q.dtype == np.float64 and np.all(q[..., 0] == rp) and np.array_equal(q[..., 1:], rgb.astype(np.float64))
+    ctx.check("rgb_roundtrip", ok, site="rgb_to_quat", tags=["real_part:" + form], detail={"kind": kind, "shape": [H, W], "dtype": str(q.dtype)})
     back = Q.quat_to_rgb(q.copy(), clip=False)
     ctx.check("rgb_roundtrip", back.shape == (H, W, 3) and np.array_equal(back, rgb.astype(np.float64)), site="quat_to_rgb(clip=False)",
               detail={"kind": kind})
